@@ -130,7 +130,9 @@ func newC20Env(c int) (*c20Env, error) {
 		return nil, err
 	}
 	// a refusing destination: a port that was bound and closed again
-	ln, err := net.Listen("tcp", n.ip(c, 3)+":6003")
+	// (on the address of the accepting destination, another port: what is known
+	// about one destination says nothing about its neighbour)
+	ln, err := net.Listen("tcp", n.ip(c, 1)+":6003")
 	if err != nil {
 		return nil, err
 	}
@@ -442,7 +444,7 @@ func fo2sec(fo *FailOverClientTransport) (*TCPClientTransport, bool) {
 
 func TestC20(t *testing.T) {
 	V.Rule("unit, fault enumeration: cached inbound connection {absent, healthy, failing on write after 0 / 1 / len-1 bytes} x reconnectable path {absent, fresh, stale connection failing once - after 0, 1 or all but one byte of the message - then destination accepts, destination refusing, destination accepting then resetting, the same with the reset observed before the write (connection-established callback waits for it: every write then fails for certain)} x send sequences of 1-3 distinct messages x subject {FailOverClientTransport over TCPClientTransports, TCPBackend (cached connection x destination)} x {no local address configured, a local address configured for outbound connections} enumerated completely; plus rapid-generated sequences of up to 12 sends with faults re-armed between sends (cached connection breaks later; peer drops the reconnectable connection). Plus rotations of 1-3 TCP backends (as the proxy holds them) whose destinations accept or refuse, cached connections absent or stale: a dispatch that reports success has written its message completely, once, to one accepting destination; with every destination refusing every dispatch reports an error. Plus histories on the table of client transports itself (per-transaction entries towards one accepting destination sharing its reconnectable path, cached connections absent / healthy / failing, final responses removing their entry before the send, the once-a-minute sweep forced): every send succeeds and writes its message exactly once. Scripted net.Conn doubles record every Write; real loopback listeners record every accepted connection's bytes. Oracle: success => some connection received the complete message (not asserted for a resetting destination); a working path (healthy cached connection or accepting destination) => the send must succeed; all writes failed for certain (reset observed) => the send must not report success; refusing destination => error within the call, no hang, no panic; a failed cached connection is never written again; every real connection holds a concatenation of complete messages; no message is written completely twice. non-trivial = scenario in which a write or dial fails and a later attempt exists; distinct by scenario")
-	V.Require("rotation of tcp backends, all refusing", "stale connection fails after taking part of the message", "table: send through a per-transaction entry", "a local address is configured for outbound connections", "fault hit", "subject:failover", "subject:tcpbackend", "secondary:refusing", "secondary:reset", "secondary:stale", "primary:fail@len-1")
+	V.Require("lab: responses for transactions whose connection was lost", "rotation of tcp backends, all refusing", "stale connection fails after taking part of the message", "table: send through a per-transaction entry", "a local address is configured for outbound connections", "fault hit", "subject:failover", "subject:tcpbackend", "secondary:refusing", "secondary:reset", "secondary:stale", "primary:fail@len-1")
 	env, err := newC20Env(210)
 	if err != nil {
 		V.HarnessError(t, "environment: %v", err)
@@ -625,6 +627,91 @@ func TestC20(t *testing.T) {
 					failf(rt, "%s: %d dispatches reported success, the accepting destination holds %d complete messages (%d message starts)", plan, okCount, complete, got)
 				}
 				time.Sleep(20 * time.Millisecond)
+			}
+		}
+	})
+	// The same promise on a running proxy: a request arrives over TCP from a client
+	// that announces (sent-by, no rport) an address where it listens; the client's
+	// connection is reset while the transaction is pending; the backend's
+	// provisional and final responses can no longer be written to the cached
+	// connection - each is delivered, once, over a new connection to the announced
+	// address, and so are the responses of later transactions.
+	lsvc, err := newStdSvc(stdVariant{})
+	if err != nil {
+		V.HarnessError(t, "cannot start lab instance: %v", err)
+	}
+	rcheck(t, "lab-lost-connection", V.N(15, 150), func(rt *rapid.T) {
+		s := lsvc
+		entry := rapid.IntRange(0, 1).Draw(rt, "listen entry")
+		l := s.in.cfg.Listens[entry]
+		uaN := rapid.IntRange(0, 3).Draw(rt, "ua")
+		uaIP := s.uas[uaN].ip
+		port := rapid.SampledFrom([]int{5060, 6010}).Draw(rt, "announced port")
+		c, err := s.in.hub.dialTCP("c20-lost", uaIP, l.Addr, l.TCPPort)
+		if err != nil {
+			failf(rt, "TCP listener does not accept: %v", err)
+		}
+		defer c.close()
+		k := rapid.IntRange(1, 3).Draw(rt, "transactions pending when the connection is lost")
+		var at []labRx
+		var hist []string
+		for i := 0; i < k; i++ {
+			id := s.nextID("c20l-")
+			m := rapid.SampledFrom([]string{"INVITE", "OPTIONS", "MESSAGE"}).Draw(rt, "method")
+			wire := []byte(fmt.Sprintf("%s sip:svc.test SIP/2.0\r\nVia: SIP/2.0/TCP %s:%d;branch=z9hG4bK%s\r\nFrom: <sip:a@a.example>;tag=f\r\nTo: <sip:svc@nomatch.example>\r\nCall-ID: %s\r\nCSeq: 1 %s\r\nContent-Length: 0\r\n\r\n", m, uaIP, port, id, id, m))
+			s.model.learnRequest(s.model.transport(entry, "tcp"), uaIP, &AMsg{IsReq: true, Hdrs: []AHdr{{Kind: hVia, Vias: []AVia{{Host: uaIP}}}}})
+			s.in.expect(wire)
+			if err := c.send(wire); err != nil {
+				V.HarnessError(rt, "send: %v", err)
+			}
+			rs, err := s.in.settle(c.sendStrict, 1)
+			if _, lost := err.(labLost); lost {
+				failf(rt, "%v", err)
+			} else if err != nil {
+				V.HarnessError(rt, "%v", err)
+			}
+			got := labMessages(rs)
+			if len(got) != 1 || got[0].tcp != nil || !s.isBackendOf(got[0].ep, entry, false) {
+				if len(got) == 1 && got[0].tcp != nil {
+					continue // the TCP backend's turn: answered over its connection below all the same
+				}
+				return // where requests go is C03's and C05's subject
+			}
+			at = append(at, got[0])
+			hist = append(hist, m+" "+id)
+		}
+		if len(at) == 0 {
+			return
+		}
+		c.close()
+		time.Sleep(time.Duration(rapid.IntRange(5, 40).Draw(rt, "ms after the reset")) * time.Millisecond)
+		V.Journal(t.Name()+"/lab-lost-connection", map[string]any{"pending": hist, "announced": fmt.Sprintf("%s:%d", uaIP, port)})
+		V.Class("lab: responses for transactions whose connection was lost")
+		V.NonTrivial(fmt.Sprintf("lost|%d|%v", port, hist))
+		for i, r := range at {
+			codes := []int{200}
+			if rapid.Bool().Draw(rt, "a provisional response first") {
+				codes = []int{rapid.SampledFrom([]int{100, 180, 183}).Draw(rt, "provisional"), 200}
+			}
+			for _, code := range codes {
+				resp := buildResponse(r.msg, code, "Answer", "t", "")
+				ep := r.ep
+				bsend := func(b []byte) error { return ep.sendUDP(l.Addr, l.UDPPort, b) }
+				s.in.expect(resp)
+				if err := bsend(resp); err != nil {
+					V.HarnessError(rt, "backend send: %v", err)
+				}
+				rs, err := s.in.settle(bsend, 1)
+				if _, lost := err.(labLost); lost {
+					failf(rt, "%v", err)
+				} else if err != nil {
+					V.HarnessError(rt, "%v", err)
+				}
+				got := labMessages(rs)
+				V.Eval()
+				if len(got) != 1 || got[0].tcp == nil || got[0].ep == nil || got[0].ep.ip != uaIP || got[0].ep.port != port {
+					failf(rt, "the %d to %s (transaction %d of %d pending when the client's connection was reset): the connection the request came over is gone, the client announced %s:%d (no rport) and listens there - the response must be delivered there exactly once over a new connection; receptions:\n%s", code, hist[i], i+1, len(at), uaIP, port, labDescribe(got))
+				}
 			}
 		}
 	})
